@@ -43,6 +43,21 @@ def run(ctx):
         meta = os.path.join(ctx.work, "meta.json")
         json.dump({"seed": ctx.seed, "tier": ctx.tier, "line": line, "invariant": v.violated}, open(meta, "w"))
         ctx.violation("HeaderTrace invariant %s false at trace line %s: %s" % (v.violated, line, json.dumps(ev)[:700]), ctx.save_replay("trace", [trace, meta]))
+    # header-first import of overlapping batches that end in a rule-breaking header, through core.HeaderChain (the caller of the
+    # engine's batch verification): one-by-one and batch verdicts must agree there too
+    from checks import chainfam
+    ctrace, nt, nev = chainfam.drive(ctx, 4 if ctx.quick else 24, 1, 0)
+    cv = vlib.validate_trace(ctx, chainfam.FAM, "ChainTrace.tla", "ChainTrace_C13.cfg", ctrace, name="trace_C13_chain", heap="12g", timeout=3000)
+    cevs = vlib.read_ndjson(ctrace)
+    ctx.evaluations += sum(1 for e in cevs if e.get("op") == "headers")
+    if cv.accepted:
+        ctx.traces_validated += nt
+    else:
+        ev = cevs[cv.line - 1] if cv.line and cv.line <= len(cevs) else {}
+        meta = os.path.join(ctx.work, "meta.json")
+        json.dump({"seed": ctx.seed, "tier": ctx.tier, "line": cv.line, "invariant": cv.violated, "part": "header-first import"}, open(meta, "w"))
+        ctx.violation("ChainTrace invariant %s false at trace line %s (header-first import of a batch with a rule-breaking header): op=%s blocks=%s err=%r" % (
+            cv.violated, cv.line, ev.get("op"), ev.get("blocks"), ev.get("err")), ctx.save_replay("chain", [ctrace, meta]))
     ctx.assumptions = ["fake PoW (the seal is C14); the 15 s future bound is tested with >= 6 s margins on both sides",
                        "uncle position facts (ancestor / duplicate / parent generation / header validity) are properties of the constructed scenario"]
     vlib.write_evidence(ctx, rule="5 built-in schedules x (heights fork-2..fork+2 for every fork + 4 ordinary heights) x repetitions x (1 valid + 21 altered + 3 floor) headers, "
